@@ -955,6 +955,25 @@ func (e *Env) evalCall(x *ECall) Val {
 		}
 		efail("f64(n) or f64(n, d)")
 		return Val{}
+	case "zero":
+		// zero(T): the zero value of the Go type T (arrays, structs, scalars), e.g. zero(common.Hash)
+		if len(x.Args) != 1 {
+			efail("zero(T)")
+		}
+		zs, zt := e.resolveType(exprString(x.Args[0]))
+		if zt == nil {
+			switch zs {
+			case SInt:
+				return intVal("0")
+			case SBool:
+				return boolVal("false")
+			}
+			efail("zero(%s): not a Go type", exprString(x.Args[0]))
+		}
+		return g.goVal(g.sorts.ZeroOf(zt), zt)
+	case "wrapint":
+		// signed 64-bit wrap (Go int / int64 arithmetic)
+		return intVal(fmt.Sprintf("(- (mod (+ %s %s) %s) %s)", arg(0).T, pow2s(63), pow2s(64), pow2s(63)))
 	case "wrap64":
 		return intVal(app("mod", arg(0).T, pow2s(64)))
 	case "wrap32":
